@@ -55,6 +55,7 @@ type Term struct {
 	Hi   int      // extract hi, or target width for zext/sext/int2bv
 	Lo   int
 	UB   *big.Int // known unsigned upper bound (inclusive) for BV terms, nil = unknown
+	NatW int      // Int terms: >0 means the value is known to lie in [0, 2^NatW)
 }
 
 func (t *Term) IsConst() bool { return t.Op == "const" }
@@ -224,6 +225,9 @@ func Eq(a, b *Term) *Term {
 	if a.IsConst() && b.Op == "ite" {
 		return Eq(b, a)
 	}
+	if a.S.K == SBV && (intBacked(a) || intBacked(b)) {
+		return mk("=", BoolSort, BV2Nat(a), BV2Nat(b))
+	}
 	return mk("=", BoolSort, a, b)
 }
 
@@ -273,6 +277,46 @@ func bvBin(op string, a, b *Term) *Term {
 		panic(fmt.Sprintf("bv %s sort mismatch %v %v", op, a.S, b.S))
 	}
 	w := a.S.W
+	if !(a.IsConst() && b.IsConst()) {
+		lift := intBacked(a) || intBacked(b)
+		switch op {
+		case "bvadd":
+			if lift {
+				return wrapNat(w, IAdd(BV2Nat(a), BV2Nat(b)))
+			}
+		case "bvsub":
+			if lift {
+				return wrapNat(w, IAdd(ISub(BV2Nat(a), BV2Nat(b)), IntC(new(big.Int).Lsh(bigOne, uint(w)))))
+			}
+		case "bvmul":
+			if lift || (LiftMulDiv && w == 64) {
+				return wrapNat(w, IMul(BV2Nat(a), BV2Nat(b)))
+			}
+		case "bvudiv":
+			if (lift || (LiftMulDiv && w == 64)) && b.IsConst() && b.C.Sign() > 0 {
+				return wrapNat(w, IDiv(BV2Nat(a), BV2Nat(b)))
+			}
+		case "bvurem":
+			if (lift || (LiftMulDiv && w == 64)) && b.IsConst() && b.C.Sign() > 0 {
+				return wrapNat(w, IMod(BV2Nat(a), BV2Nat(b)))
+			}
+		case "bvlshr":
+			if intBacked(a) && b.IsConst() && b.C.Cmp(big.NewInt(int64(w))) < 0 {
+				return wrapNat(w, IDiv(BV2Nat(a), IntC(new(big.Int).Lsh(bigOne, uint(b.C.Uint64())))))
+			}
+		case "bvshl":
+			if intBacked(a) && b.IsConst() && b.C.Cmp(big.NewInt(int64(w))) < 0 {
+				return wrapNat(w, IMul(BV2Nat(a), IntC(new(big.Int).Lsh(bigOne, uint(b.C.Uint64())))))
+			}
+		case "bvand":
+			if intBacked(a) && b.IsConst() {
+				m := new(big.Int).Add(b.C, bigOne)
+				if m.BitLen() > 1 && new(big.Int).And(m, b.C).Sign() == 0 { // mask 2^k-1
+					return wrapNat(w, IMod(BV2Nat(a), IntC(m)))
+				}
+			}
+		}
+	}
 	if a.IsConst() && b.IsConst() {
 		x, y := a.C, b.C
 		r := new(big.Int)
@@ -490,6 +534,19 @@ func bvCmp(op string, a, b *Term) *Term {
 			return tTrue
 		}
 	}
+	if op[2] == 'u' && (intBacked(a) || intBacked(b)) {
+		x, y := BV2Nat(a), BV2Nat(b)
+		switch op[3:] {
+		case "lt":
+			return ILt(x, y)
+		case "le":
+			return ILe(x, y)
+		case "gt":
+			return IGt(x, y)
+		case "ge":
+			return IGe(x, y)
+		}
+	}
 	return mk(op, BoolSort, a, b)
 }
 
@@ -508,6 +565,9 @@ func Extract(hi, lo int, a *Term) *Term {
 	}
 	if a.IsConst() {
 		return BVC(w, new(big.Int).Rsh(a.C, uint(lo)))
+	}
+	if intBacked(a) && lo == 0 {
+		return Int2BV(w, IMod(a.Args[0], IntC(new(big.Int).Lsh(bigOne, uint(w)))))
 	}
 	if a.Op == "extract" {
 		return Extract(hi+a.Lo, lo+a.Lo, a.Args[0])
@@ -584,6 +644,9 @@ func ZExt(w int, a *Term) *Term {
 	if a.S.W > w {
 		return Extract(w-1, 0, a)
 	}
+	if intBacked(a) {
+		return Int2BV(w, a.Args[0])
+	}
 	if a.IsConst() {
 		return BVC(w, a.C)
 	}
@@ -658,7 +721,22 @@ func intBin(op string, a, b *Term) *Term {
 			return a
 		}
 	}
-	return mk(op, IntSort, a, b)
+	r := mk(op, IntSort, a, b)
+	switch op {
+	case "mod":
+		if b.IsConst() && b.C.Sign() > 0 {
+			k := new(big.Int).Sub(b.C, bigOne).BitLen()
+			if k == 0 {
+				k = 1
+			}
+			r.NatW = k
+		}
+	case "div":
+		if b.IsConst() && b.C.Sign() > 0 {
+			r.NatW = natW(a)
+		}
+	}
+	return r
 }
 
 func IAdd(a, b *Term) *Term { return intBin("+", a, b) }
@@ -698,7 +776,54 @@ func BV2Nat(a *Term) *Term {
 	if a.IsConst() {
 		return IntC(a.C)
 	}
-	return mk("bv2nat", IntSort, a)
+	if a.Op == "int2bv" {
+		if nw := natW(a.Args[0]); nw > 0 && nw <= a.S.W {
+			return a.Args[0]
+		}
+	}
+	t := mk("bv2nat", IntSort, a)
+	t.NatW = a.S.W
+	return t
+}
+
+// natW: width k such that the Int term is known to lie in [0, 2^k); 0 = unknown
+func natW(t *Term) int {
+	if t.S.K != SInt {
+		return 0
+	}
+	if t.IsConst() {
+		if t.C.Sign() < 0 {
+			return 0
+		}
+		if n := t.C.BitLen(); n > 0 {
+			return n
+		}
+		return 1
+	}
+	return t.NatW
+}
+
+// LiftMulDiv: when set, 64-bit unsigned multiply/divide/remainder are encoded in integer
+// arithmetic with an explicit mod 2^64 (the bit-vector encoding of v/10000*rate does not
+// terminate in any available solver; the integer encoding is decided in seconds).
+var LiftMulDiv = false
+
+// intBacked reports whether a BV term is int2bv of an in-range Int (then its unsigned
+// value is that Int and arithmetic/comparisons can stay in the integer theory).
+func intBacked(t *Term) bool {
+	if t.Op != "int2bv" {
+		return false
+	}
+	nw := natW(t.Args[0])
+	return nw > 0 && nw <= t.S.W
+}
+
+func wrapNat(w int, t *Term) *Term {
+	if nw := natW(t); nw > 0 && nw <= w {
+		return Int2BV(w, t)
+	}
+	m := IMod(t, IntC(new(big.Int).Lsh(bigOne, uint(w))))
+	return Int2BV(w, m)
 }
 
 // BV -> Int (signed)
